@@ -47,7 +47,7 @@ ASSUMPTIONS = [
     "verification.is_nip05_verified needs nostr_bot (absent) and is not exercised",
 ]
 MIN_NONTRIVIAL = {"quick": 150, "thorough": 600}
-REQUIRED_COUNTERS = ["contract.evaluations", "pipeline.events", "pipeline.respelled_keys", "lists.builds", "race.refreshes", "race.checks_during_refresh"]
+REQUIRED_COUNTERS = ["contract.evaluations", "pipeline.events", "pipeline.respelled_keys", "lists.builds", "lists.started_builders", "race.refreshes", "race.checks_during_refresh"]
 SHARD_TIMEOUT = {"quick": 600, "thorough": 3200}
 NOW = 1700000000
 
@@ -138,6 +138,12 @@ def run_contracts(counters):
             tags = [["p", "%064x" % i] for i in range(n)] + [["e", "00" * 32], ["P", "x"]]
             cases.append(("nostr_relay.validators.is_not_hellthread", "kind=%d/p=%d" % (kind, n), ev(kind=kind, tags=tags), cfg_ns()))
     cases.append(("nostr_relay.validators.is_not_hellthread", "limit=0", ev(tags=[["p", "%064x" % i] for i in range(9)]), cfg_ns(hellthread_limit=0)))
+    # the bound is on the NUMBER of p tags: repeated values, value-less tags and short tags count like any other
+    for kind in (1, 7):
+        cases.append(("nostr_relay.validators.is_not_hellthread", "kind=%d/p=4-with-one-repeated" % kind, ev(kind=kind, tags=[["p", "%064x" % (i % 3)] for i in range(4)]), cfg_ns()))
+        cases.append(("nostr_relay.validators.is_not_hellthread", "kind=%d/p=50-identical" % kind, ev(kind=kind, tags=[["p", "%064x" % 1] for i in range(50)]), cfg_ns()))
+        cases.append(("nostr_relay.validators.is_not_hellthread", "kind=%d/p=3-distinct+3-valueless" % kind, ev(kind=kind, tags=[["p", "%064x" % i] for i in range(3)] + [["p"]] * 3), cfg_ns()))
+        cases.append(("nostr_relay.validators.is_not_hellthread", "kind=%d/p=3+other-tags" % kind, ev(kind=kind, tags=[["p", "%064x" % i] for i in range(3)] + [["e", "%064x" % 9], ["P", "x"], ["pp", "y"]]), cfg_ns()))
     for key, lab in ((k1, "service-key"), (k2, "other-key")):
         for kind in (31494, 31493, 1):
             cases.append(("nostr_relay.validators.is_service_event", "%s/kind=%d" % (lab, kind), ev(key=key, kind=kind), cfg_ns(service_pubkey=k1.pk)))
@@ -184,6 +190,8 @@ def boundary_events(k1, k2, svc):
     out.append(("other-author", ref.make_event(k2, kind=1, created_at=T, content="o")))
     out.append(("hellthread", ref.make_event(k1, kind=1, created_at=T, tags=[["p", "%064x" % i] for i in range(4)], content="h")))
     out.append(("hellthread-at-limit", ref.make_event(k1, kind=7, created_at=T, tags=[["p", "%064x" % i] for i in range(3)], content="h=")))
+    out.append(("hellthread-repeated-values", ref.make_event(k1, kind=1, created_at=T, tags=[["p", "%064x" % (i % 2)] for i in range(6)], content="hr")))
+    out.append(("hellthread-valueless", ref.make_event(k1, kind=7, created_at=T, tags=[["p", "%064x" % i] for i in range(3)] + [["p"], ["p"]], content="hv")))
     out.append(("hellthread-kind4", ref.make_event(k1, kind=5, created_at=T, tags=[["p", "%064x" % i] for i in range(9)], content="h4")))
     out.append(("fake-service", ref.make_event(k1, kind=31494, created_at=T, tags=[["d", "x"]], content="s")))
     out.append(("pow-8", ref.make_event(k1, kind=1, created_at=T, content="pow", id_prefix="00")))
@@ -389,6 +397,30 @@ async def run_lists(backend, counters):
                 viols.append({"key": "lists/allow-content/%s" % name, "msg": "[%s] %s: allow list holds keys from nowhere: %s" % (backend, name, sorted(x[:8] for x in got_allow - static)), "replay": rp})
             if got_deny != ptags(deny_src):
                 viols.append({"key": "lists/deny-content/%s" % name, "msg": "[%s] %s: deny list %s, expected %s" % (backend, name, sorted(x[:8] for x in got_deny), sorted(x[:8] for x in ptags(deny_src))), "replay": rp})
+            # a restart: the lists are built by the builder's own start(), as web.start_mainprocess_tasks does,
+            # from what the store already holds - not only by somebody calling run_once()
+            if want_allow:
+                import time as _t
+
+                dynamic_lists.ALLOWED_PUBKEYS.clear()
+                dynamic_lists.DENIED_PUBKEYS.clear()
+                b2 = dynamic_lists.ListBuilder()
+                await b2.start()
+                t0 = _t.monotonic()
+                while _t.monotonic() - t0 < 10 and {b.hex() for b in dynamic_lists.ALLOWED_PUBKEYS} != want_allow | static:
+                    await asyncio.sleep(0.01)
+                lc["started_builders"] = lc.get("started_builders", 0) + 1
+                after_start = {b.hex() for b in dynamic_lists.ALLOWED_PUBKEYS}
+                alive = b2._task is not None and not b2._task.done()
+                if after_start != want_allow | static and alive:
+                    viols.append({"key": "lists/not-built-at-start", "msg": "[%s] %s: 10 s after ListBuilder.start() on a store holding the list events the allow list has %d keys (expected %d); "
+                                  "the builder is waiting for its next interval (%s s)" % (backend, name, len(after_start), len(want_allow | static), b2.interval), "replay": rp})
+                try:
+                    await b2.stop()
+                except Exception:
+                    pass
+                got_allow = {b.hex() for b in dynamic_lists.ALLOWED_PUBKEYS}
+                got_deny = {b.hex() for b in dynamic_lists.DENIED_PUBKEYS}
             # decisions of the validator agree with the lists
             from nostr_relay.errors import StorageError
 
